@@ -764,6 +764,53 @@ func closureTarget(v ssa.Value, depth int) *ssa.Function {
 			tgt = t
 		}
 		return tgt
+	case *ssa.UnOp:
+		// a function variable: `var visit func(..); visit = func(..) {.. visit(..) ..}` - the cell's stored values
+		if x.Op != token.MUL {
+			return nil
+		}
+		var cell *ssa.Alloc
+		switch c := x.X.(type) {
+		case *ssa.Alloc:
+			cell = c
+		case *ssa.FreeVar:
+			g := c.Parent()
+			if g == nil || g.Parent() == nil {
+				return nil
+			}
+			idx := -1
+			for j, fv := range g.FreeVars {
+				if fv == c {
+					idx = j
+				}
+			}
+			forEachInstr(g.Parent(), func(_ *ssa.BasicBlock, ins ssa.Instruction) {
+				if mc, ok := ins.(*ssa.MakeClosure); ok && mc.Fn == ssa.Value(g) && idx >= 0 && idx < len(mc.Bindings) {
+					if al, ok := mc.Bindings[idx].(*ssa.Alloc); ok {
+						cell = al
+					}
+				}
+			})
+		}
+		if cell == nil || cell.Referrers() == nil {
+			return nil
+		}
+		var tgt *ssa.Function
+		for _, ref := range *cell.Referrers() {
+			st, ok := ref.(*ssa.Store)
+			if !ok || st.Addr != ssa.Value(cell) {
+				continue
+			}
+			if k, ok := st.Val.(*ssa.Const); ok && k.IsNil() {
+				continue
+			}
+			t := closureTarget(st.Val, depth+1)
+			if t == nil || (tgt != nil && tgt != t) {
+				return nil
+			}
+			tgt = t
+		}
+		return tgt
 	}
 	return nil
 }
